@@ -25,6 +25,10 @@ def explore_cfg(fn, cfg, **kw):
             core.ctx().check(False, "witness")
             return r
         kw["max_violations"] = 1
+    import os
+    # a configuration that does not finish within its budget is inconclusive, never success (a change to the code under test may make the
+    # path space explode); violations found until then are still replayed and reported
+    kw.setdefault("max_seconds", float(os.environ.get("TLV_CONFIG_SECONDS", "900" if os.environ.get("TLV_TIER", "quick") == "quick" else "5400")))
     res = core.explore(fn, **kw)
     return result_dict(res)
 
